@@ -126,6 +126,17 @@ func pairPool() []pOp {
 		}
 		return fmt.Sprintf("%s «0» shown=«1»", ec(err)), []uint64{cas, shownCas}
 	})
+	add("WriteUpdateWithXattrs(tombstone)", true, true, func(w *SWorld, st *TState, c *rosmar.Collection) (string, []uint64) {
+		var shownCas uint64
+		cas, err := c.WriteUpdateWithXattrs(ctx, "k", []string{"_s"}, 0, nil, &sgbucket.MutateInOptions{}, func(doc []byte, x map[string][]byte, cas uint64) (sgbucket.UpdatedDoc, error) {
+			shownCas = cas
+			return sgbucket.UpdatedDoc{IsTombstone: true, Xattrs: map[string][]byte{"_s": []byte(fmt.Sprintf(`{"del":%d}`, st.T))}}, nil
+		})
+		if err != nil {
+			cas = 0
+		}
+		return fmt.Sprintf("%s «0» shown=«1»", ec(err)), []uint64{cas, shownCas}
+	})
 	add("DeleteWithXattrs", true, false, func(w *SWorld, st *TState, c *rosmar.Collection) (string, []uint64) {
 		return ec(c.DeleteWithXattrs(ctx, "k", []string{"u"})), nil
 	})
